@@ -8,6 +8,7 @@ pub mod c07;
 pub mod c08;
 pub mod c09;
 pub mod c10;
+pub mod c11;
 pub mod c12;
 pub mod c13;
 pub mod c14;
@@ -41,6 +42,7 @@ pub fn all() -> Vec<PropDef> {
     PropDef { id: "C10", spaces: c10::spaces, assumptions: c10::ASSUMPTIONS, budget: (60.0, 3000.0), post: None },
     PropDef { id: "C14", spaces: c14::spaces, assumptions: c14::ASSUMPTIONS, budget: (120.0, 3000.0), post: None },
     PropDef { id: "C15", spaces: c15::spaces, assumptions: c15::ASSUMPTIONS, budget: (120.0, 3000.0), post: None },
+    PropDef { id: "C11", spaces: c11::spaces, assumptions: c11::ASSUMPTIONS, budget: (120.0, 3000.0), post: None },
     PropDef { id: "C13", spaces: c13::spaces, assumptions: c13::ASSUMPTIONS, budget: (120.0, 3000.0), post: None },
     PropDef {
         id: "C12",
